@@ -77,7 +77,7 @@ def alphaOfFloat (k : Nat) : R Nat := if k ≤ 1000 then pure (roundAlpha k) els
 
 /-- `_color_to_rgba(color, alpha_float=False)` (`None` is never passed: `png_color` tests it before) -/
 def colorToRgba : ColorArg → R (Nat × Nat × Nat × Nat)
-  | .none => throw .typeError
+  | .none => throw .valueError
   | .ints [r, g, b] => if r ≤ 255 ∧ g ≤ 255 ∧ b ≤ 255 then pure (r, g, b, 255) else throw .valueError
   | .ints [r, g, b, a] =>
     if r ≤ 255 ∧ g ≤ 255 ∧ b ≤ 255 then do let a ← alphaOfInt a; pure (r, g, b, a) else throw .valueError
@@ -278,7 +278,7 @@ def savePng (setOrder : List PColor → List PColor) (M : List (List Nat)) (w h 
 /-- `_color_to_rgb(color)` (`alpha_float=True`): refused unless the alpha value is 1.0 — which the ints
     255 and 254 are (`float('%.02f' % (254 / 255.0))` = 1.0) and, of the floats, only 1.0 -/
 def colorToRgb : ColorArg → R (List Nat)
-  | .none => throw .typeError
+  | .none => throw .valueError
   | .ints [r, g, b] => if r ≤ 255 ∧ g ≤ 255 ∧ b ≤ 255 then pure [r, g, b] else throw .valueError
   | .ints [r, g, b, a] => if r ≤ 255 ∧ g ≤ 255 ∧ b ≤ 255 ∧ 254 ≤ a ∧ a ≤ 255 then pure [r, g, b] else throw .valueError
   | .ints _ => throw .valueError
